@@ -1,29 +1,25 @@
-import CalicoVerif.Proofs.C04
+import CalicoVerif.Proofs.C04Main
 /-!
 C04 — IP set contents equal the addresses selected by the rule.
 
 Property theorems over the model `CalicoVerif/Model/C04.lean` of
 `felix/labelindex/named_port_index.go` (+ ipsetmember, overlap suppressor).
 
-What is proved here (for ALL states reachable by ANY sequence of the refcount
-transitions the index performs — `incref`, `decref`, whole `scanEndpointAgainstIPSets`
-passes — from any well-formed state, in both suppressor modes):
+Full statement (`ipset_members_eq_spec`): for EVERY history of index operations from a fresh
+index — IP sets added / changed in place / removed, endpoints and network sets added / updated /
+deleted, profile labels set / deleted, in any order, with shared IPs, nested and duplicate CIDRs,
+named ports, and any Go map iteration order (`perm…` ops) — in both suppressor modes, every
+callback alternates, the consumer holds each member once, and holds exactly the members
+contributed by the endpoints whose effective labels match the set's selector (with suppression:
+minus CIDRs strictly inside another contributed CIDR).  `refcount_eq_card`: reference counts
+count contributions.  `suppressed_cover_eq_spec`: antichain + same covered addresses.
+Hypothesis `Op.ok`: CIDRs canonical (true of every `ip.CIDRFrom…`), endpoint profile-id lists
+duplicate-free (otherwise the real index panics: `dup_profile_id_panics`).
 
-* callbacks alternate and each member is held once (`members_once_and_alternate`);
-* without suppression the consumer holds exactly the members with a positive reference
-  count (`noop_members_eq_refcounted`);
-* with suppression the consumer holds an antichain (`suppressed_antichain`) that covers
-  exactly the addresses of the reference-counted CIDRs (`suppressed_cover_eq`), and the
-  suppressor's trie holds exactly the reference-counted CIDRs.
-
-What is NOT proved (and therefore carries the `_partial` suffix on the history theorem):
-that the reference counts equal the number of contributions of the endpoints whose labels
-match (`refcount = Σ contrib`), and that the composite operations (`UpdateIPSet`, …) only
-issue transitions whose guards hold.  Both are tied to the real code by the correspondence
-harness (refcount maps, match caches and trie contents compared line by line) and by the
-from-scratch oracle on the real index.
-
-Also recorded: a history on which the real index PANICS (`dup_profile_id_panics`).
+The emission-layer theorems (`members_once_and_alternate` … `suppressor_trie_eq_refcounted`,
+`refcount_transitions_keep_invariants_partial`) are the layer the full statement is built on.
+Selector evaluation is the parameter `matchSel`; scan strategies and the trie are abstracted as
+described in the model header.
 -/
 namespace CalicoVerif.C04
 
@@ -248,6 +244,161 @@ example :
       (stepPrim (fun _ _ => true)) exIdx).out =
     [.added "s" ex32, .added "s" ex24, .removed "s" ex32, .removed "s" ex24, .added "s" ex32] := by
   decide
+
+/-! ### the full statement over all histories -/
+
+theorem sumBy_pos {α : Type} {f : α → Nat} {l : List α} (h : 0 < sumBy f l) : ∃ p ∈ l, 0 < f p := by
+  induction l with
+  | nil => simp at h
+  | cons a l ih =>
+    rw [sumBy_cons] at h
+    by_cases ha : 0 < f a
+    · exact ⟨a, List.mem_cons_self .., ha⟩
+    · obtain ⟨p, hp, hf⟩ := ih (by omega)
+      exact ⟨p, List.mem_cons_of_mem _ hp, hf⟩
+
+/-- In a state satisfying the invariant, a member has a positive reference count iff some
+matching endpoint contributes it. -/
+theorem refcounted_iff_contributed {matchSel : Sel → Labels → Bool} {st : Idx Sel} (h : Inv matchSel st)
+    (s : String) (m : Member) : 0 < refCount st s m ↔ contributed matchSel st s m := by
+  rw [h.core.refc]
+  constructor
+  · intro hpos
+    obtain ⟨p, hp, hterm⟩ := sumBy_pos hpos
+    unfold term at hterm
+    by_cases hc : s ∈ p.2.cached
+    · simp only [hc, if_true] at hterm
+      have hm := (h.lab p hp s).1 hc
+      have hmem : m ∈ contribAt st p.2 s := List.count_pos_iff.1 hterm
+      unfold matchAt at hm
+      unfold contribAt at hmem
+      cases hd : alGet s st.ipsets with
+      | none => rw [hd] at hm; cases hm
+      | some d =>
+        rw [hd] at hm hmem
+        exact ⟨p, hp, d, hd, hm, hmem⟩
+    · simp [hc] at hterm
+  · rintro ⟨p, hp, d, hd, hm, hmem⟩
+    have hM : matchAt matchSel st p.2 s = true := by unfold matchAt; rw [hd]; exact hm
+    have hC : contribAt st p.2 s = contrib p.2 d := by unfold contribAt; rw [hd]
+    have hc : s ∈ p.2.cached := (h.lab p hp s).2 hM (by rw [hC]; intro h0; rw [h0] at hmem; cases hmem)
+    have : 0 < term st s m p := by
+      unfold term; simp only [hc, if_true, hC]; exact List.count_pos_iff.2 hmem
+    exact Nat.lt_of_lt_of_le this (le_sumBy _ hp)
+
+theorem inv_new (matchSel : Sel → Labels → Bool) (b : Bool) : Inv matchSel (Idx.new Sel b) :=
+  ⟨⟨wf_new b, rfl, List.nodup_nil, fun p hp => (by cases hp), fun p hp => (by cases hp), fun p hp => (by cases hp),
+    fun s m => (by simp [Idx.new, refCount])⟩, fun p hp => (by cases hp)⟩
+
+/-- **C04, full statement.**  For EVERY history of index operations from a fresh index (IP sets
+added / changed in place / removed, endpoints and network sets added / updated / deleted,
+profile labels set / deleted, in any order, with shared IPs, nested and duplicate CIDRs, named
+ports, and any Go map iteration order — the `perm…` operations), in both suppressor modes:
+every callback alternated (strict replay succeeds), the consumer holds each member once, no Go
+panic and no refcount wrap happened, and the consumer holds EXACTLY the members contributed by
+the endpoints whose effective labels match the set's selector — with overlap suppression, minus
+the CIDRs strictly inside another contributed CIDR. -/
+theorem ipset_members_eq_spec (matchSel : Sel → Labels → Bool) (suppress : Bool) (ops : List (Op Sel))
+    (hops : ∀ op ∈ ops, op.ok) :
+    ∃ D, replay (run matchSel (Idx.new Sel suppress) ops).out = some D ∧ D.Nodup ∧
+      (run matchSel (Idx.new Sel suppress) ops).panicked = false ∧
+      (run matchSel (Idx.new Sel suppress) ops).underflow = false ∧
+      ∀ s m, (s, m) ∈ D ↔ memberSpec matchSel (run matchSel (Idx.new Sel suppress) ops) s m := by
+  have hinv := run_inv matchSel ops hops (inv_new matchSel suppress)
+  obtain ⟨D, hD, hnd, hmem⟩ := members_once_and_alternate hinv.core.wf
+  have hb := hinv.core.nb
+  unfold bad at hb
+  simp only [Bool.or_eq_false_iff] at hb
+  refine ⟨D, hD, hnd, hb.1, hb.2, fun s m => ?_⟩
+  rw [hmem]
+  unfold visible memberSpec
+  rw [refcounted_iff_contributed hinv]
+  constructor
+  · rintro ⟨h1, h2⟩
+    exact ⟨h1, fun hs c hc c' hc' => h2 hs c hc c' ((refcounted_iff_contributed hinv s _).2 hc')⟩
+  · rintro ⟨h1, h2⟩
+    exact ⟨h1, fun hs c hc c' hc' => h2 hs c hc c' ((refcounted_iff_contributed hinv s _).1 hc')⟩
+
+/-- **Reference counts count contributions.**  After every history the reference count of a
+member is the number of times the matching endpoints contribute it. -/
+theorem refcount_eq_card (matchSel : Sel → Labels → Bool) (suppress : Bool) (ops : List (Op Sel))
+    (hops : ∀ op ∈ ops, op.ok) (s : String) (m : Member) :
+    refCount (run matchSel (Idx.new Sel suppress) ops) s m =
+      sumBy (fun p => match alGet s (run matchSel (Idx.new Sel suppress) ops).ipsets with
+        | some d => if matchSel d.sel (effLabels (run matchSel (Idx.new Sel suppress) ops) p.2) = true
+            then (contrib p.2 d).count m else 0
+        | none => 0) (run matchSel (Idx.new Sel suppress) ops).eps := by
+  have hinv := run_inv matchSel ops hops (inv_new matchSel suppress)
+  generalize run matchSel (Idx.new Sel suppress) ops = st at *
+  rw [hinv.core.refc]
+  apply sumBy_congr
+  intro p hp
+  have hok := hinv.lab p hp s
+  unfold OK matchAt contribAt at hok
+  unfold term contribAt
+  cases hd : alGet s st.ipsets with
+  | none => simp
+  | some d =>
+    rw [hd] at hok
+    simp only at hok ⊢
+    by_cases hc : s ∈ p.2.cached
+    · simp [hc, hok.1 hc]
+    · simp only [hc, if_false]
+      by_cases hm : matchSel d.sel (effLabels st p.2) = true
+      · simp only [hm, if_true]
+        have : contrib p.2 d = [] := Classical.byContradiction (fun hne => hc (hok.2 hm hne))
+        simp [this]
+      · simp [hm]
+
+/-- With suppression: no emitted member inside another, and the emitted CIDRs cover exactly the
+addresses of the CIDRs contributed by the matching endpoints / network sets. -/
+theorem suppressed_cover_eq_spec (matchSel : Sel → Labels → Bool) (ops : List (Op Sel))
+    (hops : ∀ op ∈ ops, op.ok) :
+    ∃ D, replay (run matchSel (Idx.new Sel true) ops).out = some D ∧
+      (∀ s a b, (s, Member.cidr a) ∈ D → (s, Member.cidr b) ∈ D → a.sc b = false) ∧
+      ∀ s (v6 : Bool) (x : Nat),
+        (∃ c, (s, Member.cidr c) ∈ D ∧ c.v6 = v6 ∧ c.hasAddr x) ↔
+        (∃ c, contributed matchSel (run matchSel (Idx.new Sel true) ops) s (.cidr c) ∧ c.v6 = v6 ∧ c.hasAddr x) := by
+  have hinv := run_inv matchSel ops hops (inv_new matchSel true)
+  have hsup : (run matchSel (Idx.new Sel true) ops).suppress = true := run_suppress matchSel _ ops
+  obtain ⟨D, hD, hanti⟩ := suppressed_antichain hinv.core.wf hsup
+  obtain ⟨D', hD', hcov⟩ := suppressed_cover_eq hinv.core.wf
+  rw [hD] at hD'; cases hD'
+  refine ⟨D, hD, hanti, fun s v6 x => ?_⟩
+  rw [hcov]
+  constructor
+  · rintro ⟨c, h1, h2⟩; exact ⟨c, (refcounted_iff_contributed hinv s _).1 h1, h2⟩
+  · rintro ⟨c, h1, h2⟩; exact ⟨c, (refcounted_iff_contributed hinv s _).2 h1, h2⟩
+
+/-- non-vacuity of `ipset_members_eq_spec`: a history with an IP set, a network set with nested
+CIDRs and a workload sharing one of the addresses satisfies `Op.ok` … -/
+def exOps : List (Op Nat) :=
+  [ .updateIPSet "s" 0 0 "",
+    .updateEndpoint "n1" [] [⟨false, 167772160, 24⟩, ⟨false, 167772161, 32⟩] [] ["p1"],
+    .updateEndpoint "w1" [] [⟨false, 167772161, 32⟩] [] [],
+    .updateParentLabels "p1" [("a", "x")],
+    .deleteEndpoint "n1" ]
+
+example : ∀ op ∈ exOps, op.ok := by
+  intro op hop
+  simp only [exOps, List.mem_cons, List.not_mem_nil, or_false] at hop
+  rcases hop with rfl | rfl | rfl | rfl | rfl
+  · trivial
+  · refine ⟨?_, by decide⟩
+    intro c hc
+    simp only [List.mem_cons, List.not_mem_nil, or_false] at hc
+    rcases hc with rfl | rfl <;> decide
+  · refine ⟨?_, by decide⟩
+    intro c hc
+    simp only [List.mem_cons, List.not_mem_nil, or_false] at hc
+    rcases hc with rfl <;> decide
+  · trivial
+  · trivial
+
+/-- … and with suppression the consumer ends up holding exactly 10.0.0.1/32 (the /24 masked it
+while the network set existed, its removal re-exposed it; the refcount of 2 dropped to 1). -/
+example : replay (run (fun _ _ => true) (Idx.new Nat true) exOps).out =
+    some [("s", .cidr ⟨false, 167772161, 32⟩)] := by decide
 
 /-! ### a history on which the real index panics -/
 
